@@ -90,6 +90,10 @@ func VerifC12Cancel(k, times, preempt, cthreads, wind int) {
 		if wind == 1 {
 			t.Context = "ctx"
 		}
+		if i < 2 {
+			// a task that tolerates failing commands is still interrupted by a cancellation
+			t.AllowFailure = rt.Bool("allow_failure." + vDigits[i])
+		}
 		tasks[i] = t
 	}
 	for i := 0; i < k; i++ {
